@@ -322,6 +322,17 @@ func (c *c11) Run(cs core.Case) core.Result {
 		r.Violate("operand-modified", "RowReduceForInverse modified N (%s n=%d nc=%d singular=%v): %s", p.Kind, p.N, p.NC, !nonsing, d)
 	}
 
+	// Times with the same matrix on both sides (and a second square operand).
+	if p.N <= 64 {
+		var sq gf2p16.Matrix
+		if pi := core.Protect(func() { sq = gm.Times(gm) }); pi != nil {
+			r.Violate("times-panic", "M.Times(M) panicked: %s", pi.Msg)
+		} else if ok, d := equalsRef(sq, m.Mul(m)); !ok {
+			r.Violate("times-wrong", "M.Times(M) wrong for %s n=%d: %s", p.Kind, p.N, d)
+		} else if ok, d := equalsRef(gm, m); !ok {
+			r.Violate("operand-modified", "M.Times(M) modified M: %s", d)
+		}
+	}
 	// Times (square x rectangular).
 	var prod gf2p16.Matrix
 	if pi := core.Protect(func() { prod = gm.Times(gn) }); pi != nil {
